@@ -234,6 +234,11 @@ class Elf(BinFormat):
             self.__file.seek(off)
             base = addr
             bytes_ = self.__file.read(size)
+            if S.p_memsz > S.p_filesz:
+                # bss: zeros after the file-backed part, up to the page end of p_memsz
+                n = ELF_PAGEOFFSET(S.p_vaddr) + S.p_filesz
+                m = ELF_PAGEALIGN(ELF_PAGEOFFSET(S.p_vaddr) + S.p_memsz)
+                bytes_ = bytes_[:n].ljust(m, b"\x00")
             return {base: bytes_}
         else:
             logger.error("segment not a PT_LOAD [%08x/%0d]" % (S.p_vaddr, S.p_align))
